@@ -63,7 +63,7 @@ func cmdSig(args []string) {
 		}
 		// the custom function lives next to the converter or in x1/ext / x2/ext
 		q, xi := "", -1
-		if s.Use == "extend" && pkgOf[i] == "p" && s.Place != "local" && s.Place != "regex" && s.Place != "typename" && s.Place != "methoddoc" && s.Place != "" {
+		if s.Use == "extend" && pkgOf[i] == "p" && s.Place != "local" && s.Place != "regex" && s.Place != "typename" && s.Place != "methoddoc" && s.Place != "unexported" && s.Place != "" {
 			q, xi = "p.", int(s.Place[1]-'1')
 		}
 		var ps []string
@@ -155,12 +155,17 @@ func cmdSig(args []string) {
 				fsrc, ext = &srcX[xi], fmt.Sprintf("%s/x%d/ext:F%d", b.Mod, xi+1, i)
 				usedX[xi] = true
 			}
+			if s.Place == "unexported" {
+				ext = fmt.Sprintf("f%d", i)
+			}
 			if s.Place == "methoddoc" {
 				fmt.Fprintf(fsrc, "\ntype Tm%d struct{}\n\n// goverter:context source\n// goverter:context other\nfunc (Tm%d) F%d() {}\n", i, i, i)
 			}
 			if s.Place == "typename" {
 				// a declared func type of this name instead of a function
 				fmt.Fprintf(fsrc, "\n%stype F%d func(%s)%s\n\n// goverter:context source\n// goverter:context other\nfunc G%d(v int, source %sX, other %sY) string { return \"\" }\n", fdoc, i, strings.Join(ps, ", "), res, i, q, q)
+			} else if s.Place == "unexported" {
+				fmt.Fprintf(fsrc, "\n%sfunc f%d(%s)%s { %s }"+trail+"\n\n// goverter:context source\n// goverter:context other\nfunc G%d(v int, source %sX, other %sY) string { return \"\" }\n\nvar _ = f%d\n", fdoc, i, strings.Join(ps, ", "), res, body, i, q, q, i)
 			} else {
 				fmt.Fprintf(fsrc, "\n%sfunc F%d(%s)%s { %s }"+trail+"\n\n// goverter:context source\n// goverter:context other\nfunc G%d(v int, source %sX, other %sY) string { return \"\" }\n", fdoc, i, strings.Join(ps, ", "), res, body, i, q, q)
 			}
